@@ -38,6 +38,8 @@ type Spec struct {
 	Cred       string     `json:"cred"`                  // password | keytab
 	ETypes     []int32    `json:"etypes"`                // client's configured list, in order
 	Preauth    string     `json:"preauth"`               // none | required | required-bare (no salt hint, cname/crealm omitted from the error) | assume
+	UDPFirst   bool       `json:"udp_first,omitempty"`   // the default udp_preference_limit instead of TCP only: small requests go out over UDP first
+	BigTickets int        `json:"big_tickets,omitempty"` // every ticket issued carries this many octets of further authorization data (as PACs make them): replies of 2-4 KB
 	LegacyInfo string     `json:"legacy_info,omitempty"` // the KDC's hints also hold a PA-ETYPE-INFO naming another etype and salt: "after" / "before" the PA-ETYPE-INFO2
 	Salted     bool       `json:"salted"`
 	Params     bool       `json:"params"` // the client's keys use a non-default iteration count
@@ -196,6 +198,17 @@ func Build(s *Spec) (*World, error) {
 		names = append(names, ETypeNames[e])
 	}
 	lim := 1
+	if s.UDPFirst {
+		lim = 1465
+	}
+	if s.BigTickets > 0 {
+		pad := make([]byte, s.BigTickets)
+		for _, r := range w.Realms {
+			r.Mutate = func(x *kdc.ReplyCtx) {
+				x.Ticket.AuthData = append(x.Ticket.AuthData, mint.AD{Type: 1, Data: der.AuthData.MustEncode([]any{der.M{"ad-type": int64(99), "ad-data": pad}})})
+			}
+		}
+	}
 	o := kdc.ConfOpts{DefaultRealm: RealmName(0), ETypes: strings.Join(names, " "), Forwardable: s.Fwd, Proxiable: s.Prox, Canonicalize: s.Canon,
 		NoAddresses: s.NoAddr, RenewLifetime: s.RenewLife, TicketLife: s.TicketLife, UDPPrefLimit: &lim, Extra: "  allow_weak_crypto = true\n"}
 	if !s.NoAddr {
